@@ -1,7 +1,7 @@
 (* C09  Counter-file week boundaries are computed and honoured consistently.
    This file holds only statements; every proof is `exact <lemma>`. *)
 From Coq Require Import List ZArith NArith Bool.
-From Tele Require Import Lib.Bytes Lib.Calendar Model.Span Proofs.CalendarFacts Proofs.SpanFacts.
+From Tele Require Import Lib.Bytes Lib.Calendar Model.Span Proofs.CalendarFacts Proofs.SpanFacts Proofs.SpanShare.
 Import ListNotations.
 Open Scope Z_scope.
 From Coq Require Import String. Open Scope string_scope. Open Scope Z_scope. Open Scope list_scope.
@@ -89,6 +89,25 @@ Theorem C09_weekend_error_iff_blank : forall f, weekend_of_bytes f = None <-> tr
 Proof. exact weekend_none_iff. Qed.
 Print Assumptions C09_weekend_error_iff_blank.
 
+(* A process that meets an existing file of the same program and begin date
+   (the name carries nothing else) counts into it only if the file's recorded
+   span is its own, so its rotation instant is the recorded end and the
+   uploader reads the same week from the header; otherwise the file is refused
+   and nothing of that process lands in it. *)
+Theorem C09_shared_file_has_own_span : forall now0 w0 now1 w1 s,
+  0 <= w0 < 7 -> 0 <= w1 < 7 -> in_range now0 -> in_range now1 ->
+  second_opener (counter_span now0 w0) (counter_span now1 w1) = Some s ->
+  s = counter_span now1 w1 /\
+  uploader_reads (meta_time_begin s) (meta_time_end s) = Some (counter_span now1 w1).
+Proof. exact second_opener_own_span. Qed.
+Print Assumptions C09_shared_file_has_own_span.
+Theorem C09_foreign_span_refused_iff : forall first mine,
+  second_opener first mine = None <->
+  name_date first = name_date mine /\
+  ~ (meta_time_begin first = meta_time_begin mine /\ meta_time_end first = meta_time_end mine).
+Proof. exact second_opener_refused_iff. Qed.
+Print Assumptions C09_foreign_span_refused_iff.
+
 (* Non-vacuity: concrete instances. 2024-02-28 12:00:00 UTC (Wednesday),
    week end Sunday: begins 2024-02-28, ends 2024-03-03 (leap year crossing). *)
 Example C09_example_leap :
@@ -97,6 +116,11 @@ Example C09_example_leap :
   name_date (counter_span 1709121600 0) = s2b "2024-02-28" /\
   in_range 1709121600.
 Proof. split; [|split; [|split]]; try (vm_compute; reflexivity). unfold in_range. vm_compute. split; [discriminate | reflexivity]. Qed.
+(* 2024-02-28, week end Sunday, then a second process the same day with week end Thursday: refused *)
+Example C09_example_refused :
+  second_opener (counter_span 1709121600 0) (counter_span 1709125200 4) = None /\
+  second_opener (counter_span 1709121600 0) (counter_span 1709125200 0) = Some (counter_span 1709121600 0).
+Proof. split; vm_compute; reflexivity. Qed.
 Example C09_example_weekend : weekend_of_bytes (s2b "9
 ") = Some 2 /\ weekend_of_bytes (s2b "  ") = None.
 Proof. split; vm_compute; reflexivity. Qed.
